@@ -625,13 +625,20 @@ func suitesOf(in [][]int) []ipmi.CipherSuite {
 	return out
 }
 
-func runStep(st *scnState, step *scnStep) (res stepResult) {
+func runStepNoMetrics(st *scnState, step *scnStep) stepResult { return runStepM(st, step, false) }
+
+func runStep(st *scnState, step *scnStep) stepResult { return runStepM(st, step, true) }
+
+func runStepM(st *scnState, step *scnStep, withMetrics bool) (res stepResult) {
 	res.Op = step.Op
 	t := st.t
 	t.script, t.events, t.n = step.Script, step.Events, 0
 	t.sent, t.deliv, t.actions = nil, nil, nil
 	logFrom := len(st.b.Log)
-	before := gatherMetrics()
+	var before map[string]float64
+	if withMetrics {
+		before = gatherMetrics()
+	}
 	ctxMs := step.CtxMs
 	if ctxMs == 0 {
 		ctxMs = 5000
@@ -807,7 +814,9 @@ func runStep(st *scnState, step *scnStep) (res stepResult) {
 		}
 	}()
 	res.ElapsedMs = float64(time.Since(start).Microseconds()) / 1000
-	res.Metrics = metricsDelta(before, gatherMetrics())
+	if withMetrics {
+		res.Metrics = metricsDelta(before, gatherMetrics())
+	}
 	res.Sent, res.Delivered, res.Actions = t.sent, t.deliv, t.actions
 	for _, e := range st.b.Log[logFrom:] {
 		res.BMC = append(res.BMC, bmcEvent{Kind: e.Kind, Accepted: e.Accepted, Reject: e.Reject, SID: e.SessionID, Seq: e.Seq,
